@@ -1430,7 +1430,7 @@ func (lhh *LightHouseHandler) handleHostPunchNotification(n *NebulaMeta, fromVpn
 			continue
 		}
 		b := protoV4AddrPortToNetAddrPort(a)
-		if remoteAllowList.Allow(detailsVpnAddr, b.Addr()) {
+		if remoteAllowList.Allow(detailsVpnAddr, b.Addr()) && !lhh.lh.myVpnNetworksTable.Contains(b.Addr()) {
 			lhh.lh.punchy.Schedule(b, detailsVpnAddr)
 		}
 	}
@@ -1440,7 +1440,7 @@ func (lhh *LightHouseHandler) handleHostPunchNotification(n *NebulaMeta, fromVpn
 			continue
 		}
 		b := protoV6AddrPortToNetAddrPort(a)
-		if remoteAllowList.Allow(detailsVpnAddr, b.Addr()) {
+		if remoteAllowList.Allow(detailsVpnAddr, b.Addr()) && !lhh.lh.myVpnNetworksTable.Contains(b.Addr()) {
 			lhh.lh.punchy.Schedule(b, detailsVpnAddr)
 		}
 	}
